@@ -53,7 +53,7 @@ func baseName(oblName string) string {
 // constraint of a matching known finding in the unit's entry state.
 func (s *state) attachKnown(o *oblig) {
 	u := s.u
-	if u.kf == nil || s.old == nil {
+	if u.kf == nil || s.old == nil || u.ct == nil {
 		return
 	}
 	for _, k := range u.kf.Findings {
